@@ -64,7 +64,7 @@ def _unwrap_stats(stats, ndim):
         return [{k: float(v) for k, v in stats.items()}]
 
     n = {len(v) for v in stats.values()}.pop()
-    return [{k: v[idx] for k, v in stats.items()} for idx in range(n)]
+    return [{k: float(v[idx]) for k, v in stats.items()} for idx in range(n)]
 
 
 def _stats_from_layer(
